@@ -31,8 +31,11 @@ from vt.runner import ROOT, Violation, shard_seed
 ID = "C09"
 LEVEL = "exploration"
 RULE = (
-    "repeat: generated input x method x options run twice and (discrete methods) under several num_threads; "
-    "procs: batch of generated calls re-run in fresh processes with PYTHONHASHSEED in {0, 1, seed-derived}; "
+    "repeat: generated input x method x options (incl. approximate priors from small lookup tables) run twice "
+    "with a different call on the same input in between, and (discrete methods) under several num_threads; "
+    "procs: batch of generated calls, each discrete call with a twin that differs only in the prior "
+    "parameterisation, re-run in fresh processes with PYTHONHASHSEED in {0, 1, seed-derived}, every process in a "
+    "different batch order; "
     "reuse: drawn sequences of discrete-method calls with mixed probability spaces on one prior object. "
     "Non-trivial = a reuse sequence with a linear call after a logarithmic one, or a repeat case with >= 2 "
     "distinct (mutations, span) likelihood keys run with num_threads >= 2, or a multi-process case; distinct by digest"
